@@ -224,8 +224,8 @@ Definition step' (e : env) (st : state) (o : op) : state :=
 
 Definition run (e : env) (st : state) (ops : list op) : state := fold_left (step' e) ops st.
 
-Definition init (t0 : Z) (m0 : nat -> Z) (gt0 : nat -> option Z) : state :=
-  mkState t0 gt0 (fun _ _ => 0) (fun _ => 0) (fun _ _ => 0) (fun _ => false)
+Definition init (t0 : Z) (m0 : nat -> Z) (gt0 : nat -> option Z) (tot0 : nat -> Z) : state :=
+  mkState t0 gt0 (fun _ _ => 0) tot0 (fun _ _ => 0) (fun _ => false)
     (fun _ _ _ => 0) (fun _ _ => 0) m0 (fun _ _ => 0)
     (fun _ _ => 0) (fun _ _ => 0) (fun _ _ => 0) (fun _ _ => 0) (fun _ => 0) (fun _ => 0).
 
@@ -311,12 +311,32 @@ Definition inv_b (e : env) (st : state) : bool :=
         && (2 * sumN (nusers e) (fun u => integral st u d)
               <=? 2 * emitted st d * PREC * PREC + accslack st d)) ds.
 
+(* The state's fields are closures over the previous state; evaluating them
+   after n steps walks n closures.  The checker therefore re-tabulates the
+   state after every step (same values on all in-range indexes, which is all
+   the model ever reads; out-of-range indexes read as 0 / None / false). *)
+Definition tab1 {A} (dflt : A) (n : nat) (f : nat -> A) : nat -> A :=
+  let l := map f (seq 0 n) in fun i => nth i l dflt.
+Definition tab2 (n m : nat) (f : nat -> nat -> Z) : nat -> nat -> Z :=
+  let l := map (fun i => map (f i) (seq 0 m)) (seq 0 n) in fun i j => nth j (nth i l []) 0.
+Definition tab3 (n m k : nat) (f : nat -> nat -> nat -> Z) : nat -> nat -> nat -> Z :=
+  let l := map (fun i => map (fun j => map (f i j) (seq 0 k)) (seq 0 m)) (seq 0 n) in
+  fun i j x => nth x (nth j (nth i l []) []) 0.
+
+Definition retab (e : env) (st : state) : state :=
+  let nu := nusers e in let np := npools e in let nd := ndenoms e in
+  mkState (now st) (tab1 None np (g_time st)) (tab2 np nd (g_idx st)) (tab1 0 np (tot st))
+    (tab2 nu np (sh st)) (tab1 false nu (has_claim st)) (tab3 nu np nd (u_idx st))
+    (tab2 nu nd (rew st)) (tab1 0 nd (macc st)) (tab2 nu nd (bal st))
+    (tab2 nu nd (integral st)) (tab2 nu nd (due st)) (tab2 nu nd (nsync st)) (tab2 nu nd (claimed st))
+    (tab1 0 nd (emitted st)) (tab1 0 nd (accslack st)).
+
 Fixpoint first_mismatch (e : env) (s : state) (shadow : list Z) (h : list (op * obs)) (i : nat) : option nat :=
   match h with
   | [] => None
   | (o, ob) :: r =>
       let res := step e s o in
-      let s' := match res with Ok s1 _ => s1 | _ => s end in
+      let s' := retab e (match res with Ok s1 _ => s1 | _ => s end) in
       let shadow' := apply_obs shadow ob in
       if rclass_eqb (class_of res) (o_class ob)
          && list_eqb Z.eqb (project e s') shadow'
@@ -338,13 +358,15 @@ Record history := mkHist {
   h_t0 : Z;
   h_macc : list Z;
   h_gtime : list Z;                (* accrual times at the start (the test app runs one begin block at genesis), -1 = none *)
+  h_tot : list Z;                  (* source totals at the start (delegator: the genesis validator's stake) *)
   h_init : list Z;                 (* the implementation's flat projection before the first operation *)
   h_steps : list (op * obs)
 }.
 
 Definition check_history (h : history) : option nat :=
   let s0 := init (h_t0 h) (nthZ (h_macc h))
-                 (fun p => let x := nth p (h_gtime h) (-1) in if x <? 0 then None else Some x) in
+                 (fun p => let x := nth p (h_gtime h) (-1) in if x <? 0 then None else Some x)
+                 (nthZ (h_tot h)) in
   if inv_b (h_env h) s0 && list_eqb Z.eqb (project (h_env h) s0) (h_init h)
   then first_mismatch (h_env h) s0 (h_init h) (h_steps h) 0
   else Some 0%nat.
